@@ -25,12 +25,18 @@ echo "   pinned suite: exit $a/$b"
 if [ -n "$demo" ]; then go test -vet=off -count=1 -run 'TestDemo' . >/tmp/seed_demo_patched.log 2>&1; echo "   demo with the change: exit $?"; fi
 cd /verif
 if [ $# -gt 0 ]; then
-  echo "== checks on /repo with the change applied"
-  git -C /repo apply "$seed/patch.diff" || exit 2
+  if [ -n "$ON_REPO" ]; then
+    echo "== checks on /repo with the change applied"
+    git -C /repo apply "$seed/patch.diff" || exit 2
+  else
+    echo "== checks on the patched scratch worktree (VERIF_REPO=$wt; evidence goes to /tmp/verif-dev)"
+    rm -f "$wt/zz_demo_test.go"
+    export VERIF_REPO="$wt"
+  fi
   for c in "$@"; do
-    out=$(./check "$c" quick 2>&1); rc=$?
-    echo "   $c quick: exit $rc  $(echo "$out" | grep -E 'VIOLATION|MACHINERY' | head -2 | tr '\n' ' ')"
-    echo "$out" | grep -E "confirmed on the real build|real build fails|SPURIOUS" | head -4 | sed 's/^/      /'
+    out=$(./check "$c" ${TIER:-quick} 2>&1); rc=$?
+    echo "   $c ${TIER:-quick}: exit $rc  $(echo "$out" | grep -E 'VIOLATION|MACHINERY' | head -2 | tr '\n' ' ')"
+    echo "$out" | grep -E "confirmed on the real build|real build fails|SPURIOUS|reproduced on the real runtime" | head -4 | sed 's/^/      /'
   done
-  git -C /repo checkout -- . ; git -C /repo status --short
+  if [ -n "$ON_REPO" ]; then git -C /repo checkout -- . ; git -C /repo status --short; fi
 fi
